@@ -64,6 +64,35 @@ CLAIMS = {
         "Trusts filter() semantics and the interpreter; equality of filtered and unfiltered trace text is argued from "
         "C04/C05-style locality, not checked.",
         "DESIGN.md §4 C13"),
+    "C16": (
+        "symbolic unfolding of the constructor's keyword dictionary into (field, value, condition) stores; construct layout "
+        "evaluated to bit positions; enum-kind check of byte registries",
+        "Decided for the top-level record and the trace-id layout: all 41 stores are enumerated with their guards, so the "
+        "claim 'any subset of the 31 optional keys constructs' follows from (every keyword is a declared field) + (mandatory "
+        "fields unconditional, optional fields defaulted) + (guard key == consumed key, each key once) - 2^31 combinations "
+        "decided by 41 facts. The firehose bit packing is compared with the construct declaration evaluated to bit ranges.",
+        "Value-level conversions (UTC instant, nested decomposed-message shapes) are not decided. The raw-key table is the "
+        "one confirmed on the reviewed tree; the firehose bit layout is transcribed from libdispatch's tracepoint header.",
+        "DESIGN.md §4 C16"),
+    "C18": (
+        "forbidden-source scan over resolved names (imports and aliases resolved per module), keyed by (function, API)",
+        "Decided as a who-may-use rule: every expression in the decoding/formatting modules that resolves to the running "
+        "interpreter's errno/signal/socket/platform tables is enumerated; the ten existing uses are genuine defects recorded "
+        "as known findings (repair needs Darwin tables), any other use is a violation. Quantifies over all hosts because it "
+        "removes the dependence rather than sampling hosts.",
+        "Dynamic access (getattr/importlib) is not modelled - the package uses none; an embedded fixture must be flagged on "
+        "every run.",
+        "DESIGN.md §4 C18"),
+    "C19": (
+        "symbolic normal form of the table parser (comprehension / map-lambda / loop forms) + call-site guard and flow analysis "
+        "of the default table + return-term matching of the dispatcher",
+        "Decided: the text parser is shown to be 'for each element of splitlines(): table[int(line.split()[0],16)] = "
+        "line.split()[1]' with an unconditional store, which by dict semantics is exactly the pairs with last occurrence "
+        "winning for all texts; every use of the bundled table is shown to be guarded by 'caller's table is None' and the "
+        "chosen table is what reaches the consumers; absent ids are shown to render as bare hex and to yield no trace; the "
+        "decoder is shown to be selected by the table's name for the id.",
+        "Trusts str.split/splitlines/int semantics and dict semantics.",
+        "DESIGN.md §4 C19"),
     "C17": (
         "registry/code-table resolution (dict literals through functools.partial vs trace.codes) + symbolic template "
         "comparison of twin renderings",
